@@ -66,4 +66,65 @@ structure SMWrite where
   guarded : Bool
   deriving DecidableEq, Repr
 
+/-! ### Structural facts about the Go text inside the templates
+
+The extractor FLATTENS every template tree (the template of a file and each
+`{{define}}` in it; the latter are named `file{name}`): text nodes verbatim, in
+document order; every printing action replaced by a placeholder identifier;
+every `{{template}}` include by another placeholder; BOTH branches of
+`{{if}}` / `{{with}}` / `{{range}}` present.  Each byte remembers the stack of
+template branches it lies under, its *guards*, written
+
+* `if P` / `unless P` for the two branches of `{{if P}}`,
+* `with P` / `without P` for `{{with P}}`,
+* `range P` / `norange P` for `{{range P}}`
+
+(`P` as printed by text/template/parse).  The flattened text is tokenised with
+go/scanner and examined by a bracket-aware scanner.  Templates of modifier mode
+(`internal/modifier/templates`) are reported under `modifier/`. -/
+
+/-- A func literal in the flattened text of a template.
+
+* `index`: position among the literals of the template, by their `func` keyword;
+* `depth`: number of enclosing func literals (bodies of func DECLARATIONS do
+  not count); `parent`: index of the innermost one;
+* `guards`: template branches around the `func` keyword, relative to the
+  enclosing literal (at depth 0: relative to the statement calling
+  `NewScheduler` in a root template, to the whole template otherwise);
+* `isDeferred`: the literal is the operand of `defer` and is called on the spot;
+* `hasRecover`: its body calls `recover()` outside any nested literal;
+* `isJobBody`: signature `func(ctx <context>.Context) (err error)`;
+* `conditional`: `guards` is non-empty, or its `recover()` lies in a template
+  branch the `func` keyword does not lie in. -/
+structure TmplFn where
+  file : String
+  index : Nat
+  depth : Nat
+  parent : Option Nat
+  guards : List String
+  isDeferred : Bool
+  hasRecover : Bool
+  isJobBody : Bool
+  conditional : Bool
+  deriving DecidableEq, Repr
+
+/-- An occurrence of a recognised construct, with the template branches it
+lies under (relative to the construct the list is about).  Names:
+
+* `NewScheduler`, `Wait`, `Error`, `Success` (the FlowError/ParallelError and
+  FlowSuccess/ParallelSuccess events), `ResultsCopy` (a statement
+  `*(...) = ...`), `return`, `include:<template>`;
+* defer statements by what the deferred literal does: `defer:Done`,
+  `defer:Skipped` (the TaskSkipped sweep), `defer:TaskDone`, `defer:recover`,
+  and `defer:ranStore` for `defer X.ran.Store(true)`;
+* in job closures: `gate` (`if !p { return nil }`), `ranStore`, `call` (the
+  user function: `{{expr .Function.Node}}`/`{{expr .Node}}` or an include of a
+  template named `call...`), `fallback` (TaskPanicRecovered /
+  TaskErrorRecovered), `TaskError`, `TaskSuccess`;
+* anything else the scanner trips over: a name starting with `unknown`. -/
+structure Mark where
+  guards : List String
+  name : String
+  deriving DecidableEq, Repr
+
 end Extracted
